@@ -78,7 +78,9 @@ pub mod macros_support {
 /// `else`); `else` and `biased;` are not (the repository uses none).
 #[macro_export]
 macro_rules! select {
-    ($($t:tt)*) => { $crate::__select_parse!{ () $($t)* } };
+    // `biased;`: branches are polled in the order written (tokio's documented meaning)
+    (biased; $($t:tt)*) => { $crate::__select_parse!{ ({true}) $($t)* } };
+    ($($t:tt)*) => { $crate::__select_parse!{ ({false}) $($t)* } };
 }
 
 #[doc(hidden)]
@@ -116,7 +118,7 @@ macro_rules! __select_parse {
 #[doc(hidden)]
 #[macro_export]
 macro_rules! __select_emit {
-    ( [{$p0:pat} {$f0:expr} {$c0:expr} {$h0:expr}] [{$p1:pat} {$f1:expr} {$c1:expr} {$h1:expr}] ) => {{
+    ( {$biased:expr} [{$p0:pat} {$f0:expr} {$c0:expr} {$h0:expr}] [{$p1:pat} {$f1:expr} {$c1:expr} {$h1:expr}] ) => {{
         let __out = {
             let __e0: bool = $c0;
             let __e1: bool = $c1;
@@ -125,7 +127,7 @@ macro_rules! __select_emit {
             if !(__e0 || __e1) {
                 panic!("all branches are disabled and there is no else branch");
             }
-            let __start = $crate::macros_support::select_start(2);
+            let __start = if $biased { 0 } else { $crate::macros_support::select_start(2) };
             $crate::macros_support::PollFn(|__cx: &mut $crate::macros_support::Context<'_>| {
                 use $crate::macros_support::{Future, Poll, Out2};
                 for __i in 0..2u32 {
@@ -142,7 +144,7 @@ macro_rules! __select_emit {
             $crate::macros_support::Out2::_1($p1) => $h1,
         }
     }};
-    ( [{$p0:pat} {$f0:expr} {$c0:expr} {$h0:expr}] [{$p1:pat} {$f1:expr} {$c1:expr} {$h1:expr}] [{$p2:pat} {$f2:expr} {$c2:expr} {$h2:expr}] ) => {{
+    ( {$biased:expr} [{$p0:pat} {$f0:expr} {$c0:expr} {$h0:expr}] [{$p1:pat} {$f1:expr} {$c1:expr} {$h1:expr}] [{$p2:pat} {$f2:expr} {$c2:expr} {$h2:expr}] ) => {{
         let __out = {
             let __e0: bool = $c0;
             let __e1: bool = $c1;
@@ -153,7 +155,7 @@ macro_rules! __select_emit {
             if !(__e0 || __e1 || __e2) {
                 panic!("all branches are disabled and there is no else branch");
             }
-            let __start = $crate::macros_support::select_start(3);
+            let __start = if $biased { 0 } else { $crate::macros_support::select_start(3) };
             $crate::macros_support::PollFn(|__cx: &mut $crate::macros_support::Context<'_>| {
                 use $crate::macros_support::{Future, Poll, Out3};
                 for __i in 0..3u32 {
@@ -172,7 +174,7 @@ macro_rules! __select_emit {
             $crate::macros_support::Out3::_2($p2) => $h2,
         }
     }};
-    ( [{$p0:pat} {$f0:expr} {$c0:expr} {$h0:expr}] [{$p1:pat} {$f1:expr} {$c1:expr} {$h1:expr}] [{$p2:pat} {$f2:expr} {$c2:expr} {$h2:expr}] [{$p3:pat} {$f3:expr} {$c3:expr} {$h3:expr}] ) => {{
+    ( {$biased:expr} [{$p0:pat} {$f0:expr} {$c0:expr} {$h0:expr}] [{$p1:pat} {$f1:expr} {$c1:expr} {$h1:expr}] [{$p2:pat} {$f2:expr} {$c2:expr} {$h2:expr}] [{$p3:pat} {$f3:expr} {$c3:expr} {$h3:expr}] ) => {{
         let __out = {
             let __e0: bool = $c0;
             let __e1: bool = $c1;
@@ -185,7 +187,7 @@ macro_rules! __select_emit {
             if !(__e0 || __e1 || __e2 || __e3) {
                 panic!("all branches are disabled and there is no else branch");
             }
-            let __start = $crate::macros_support::select_start(4);
+            let __start = if $biased { 0 } else { $crate::macros_support::select_start(4) };
             $crate::macros_support::PollFn(|__cx: &mut $crate::macros_support::Context<'_>| {
                 use $crate::macros_support::{Future, Poll, Out4};
                 for __i in 0..4u32 {
